@@ -77,10 +77,33 @@ def gen_case(rng, N, nthread, npart, coord, dt, hasw, sort, style):
                 box=[box.numerator, box.denominator], J=J.tolist(), w8=w8)
 
 
+BIG_LAT = 2 ** 20
+BIG_NP = (32767, 32768, 32769, 40000, 65535, 65536, 65537, 70000, 131073)
+
+
+def gen_big_case(rng, N, nthread, npart, coord, hasw, sort):
+    """very many stripes (the stripe key no longer fits 15 / 16 bits): positions on a 2^-20 lattice, float64, each
+    placed in the middle half of its stripe so that the float product x * (npartition / Box) cannot round across a stripe
+    boundary; half of the particles in the top stripes"""
+    box = Fraction(2) ** int(rng.choice([0, 3]))
+    s = np.where(rng.random(N) < 0.5, rng.integers(max(0, npart - 64), npart, N), rng.integers(0, npart, N))
+    j = ((2 * s + 1) * BIG_LAT) // (2 * npart)        # about the stripe centre (stripes are >= 8 lattice steps wide)
+    J = np.zeros((N, 3), dtype=np.int64)
+    J[:, coord] = j
+    J[:, [c for c in range(3) if c != coord]] = rng.integers(0, 5, (N, 2)) * (BIG_LAT // 4)
+    w8 = [int(v) for v in rng.integers(-8, 25, N)] if hasw else None
+    return dict(N=int(N), nthread=int(nthread), np=int(npart), coord=int(coord), dt='f8', sort=int(sort), style='bignp',
+                box=[box.numerator, box.denominator], J=J.tolist(), w8=w8, lat=BIG_LAT)
+
+
 def gen_cases(ctx):
     rng = ctx.rng
     n = ctx.pick(2600, 40000)
     cases = []
+    for k, npart in enumerate(BIG_NP):
+        for rep in range(ctx.pick(1, 3)):
+            cases.append(gen_big_case(rng, int(rng.integers(1, 40)), int(rng.choice([1, 2, 5, 16])), npart, int(rng.integers(0, 3)),
+                                      bool((k + rep) % 2), bool(k % 3 == 0)))
     # small exhaustive-ish corner: N 0..3 x nthread x npartition
     for N in (0, 1, 2, 3):
         for nthread in (1, 2, 3, 4, 7, 16):
@@ -110,7 +133,7 @@ def arrays(c):
     dt = np.float32 if c['dt'] == 'f4' else np.float64
     box = Fraction(*c['box'])
     J = np.array(c['J'], dtype=np.int64).reshape(c['N'], 3)
-    pos = (J.astype(np.float64) * float(box / LAT)).astype(dt)      # exact: dyadic
+    pos = (J.astype(np.float64) * float(box / c.get('lat', LAT))).astype(dt)      # exact: dyadic
     w = None if c['w8'] is None else (np.array(c['w8'], dtype=np.float64) / 8).astype(dt)
     return pos, w, float(box)
 
@@ -178,7 +201,8 @@ def oracle(ctx, c, r, label):
         return False
     if c['style'] == 'negative':
         return ok            # outside the property's domain [0, BoxSize]: only permutation / input / starts shape
-    for s in range(npart):
+    sta = np.asarray(st)
+    for s in (int(v) for v in np.nonzero(sta[1:] > sta[:-1])[0]):
         seg = r['out'][st[s]:st[s + 1]]
         bad = [row for row in seg if floor_key(c, row) != s]
         if bad:
@@ -205,7 +229,7 @@ def fr(x):
 
 def model_line(c, blocks):
     box = Fraction(*c['box'])
-    xs = [fr(Fraction(row[c['coord']]) * box / LAT) for row in c['J']]
+    xs = [fr(Fraction(row[c['coord']]) * box / c.get('lat', LAT)) for row in c['J']]
     b = 'auto' if blocks == 'auto' else ','.join(str(v) for v in blocks)
     return 'part %d %d %s %s %d %s' % (c['np'], c['nthread'], b, fr(box), c['sort'], ','.join(xs) if xs else '-')
 
@@ -284,7 +308,26 @@ def check_blocks(ctx):
                 ctx.disagree('linspace thread blocks differ from floor(i*N/T) by more than one', {'N': N, 'T': T}, mb, a)
 
 
+def process_big(ctx, cases, fn, fn_py):
+    """very many stripes: the list-based Lean model is quadratic in the stripe count, so these cases go to the oracle
+    only (the property restated on the result); they exist for the machine-integer width of the stripe key, which the
+    model (unbounded integers) cannot exhibit"""
+    for k, c in enumerate(cases):
+        ctx.case(c, nontrivial=c['N'] >= 2)
+        ctx.count('style:' + c['style'])
+        if fn_py is not None and c['nthread'] <= 2 and c['np'] <= 40000:
+            rp = run_impl(c, fn_py)
+            ctx.count('py_func runs')
+            if not oracle(ctx, c, rp, 'py_func') or 'exc' in rp:
+                continue
+        oracle(ctx, c, run_impl(c, fn), 'compiled')
+
+
 def process(ctx, cases, fn, fn_py):
+    big = [c for c in cases if c.get('style') == 'bignp']
+    if big:
+        process_big(ctx, big, fn, fn_py)
+        cases = [c for c in cases if c.get('style') != 'bignp']
     lines = []
     for c in cases:
         lines.append(model_line(c, real_blocks(c)))
@@ -330,7 +373,7 @@ def run(ctx):
     corpus = corpus_cases()
     ctx.count('corpus', len(corpus))
     process(ctx, corpus + gen_cases(ctx), partition_parallel, fn_py)
-    ctx.extra['scope'] = 'N<=200, nthread 1..16, npartition 1..40, coord 0..2, f4/f8, weights, sort; lattice Box/1024'
+    ctx.extra['scope'] = 'N<=200, nthread 1..16, npartition 1..40 (plus 32767..131073 on a Box/2^20 lattice, float64), coord 0..2, f4/f8, weights, sort; lattice Box/1024'
 
 
 def intensify(ctx):
